@@ -791,9 +791,10 @@ func runFF(o *Opts) *Summary {
 		// (4) a node with history is sent back to CatchingUp and offered tampered responses, then a valid one
 		// (a node with history over a Badger store keeps, after the reset, the blocks
 		// and events of its previous life in the database, which the specification
-		// does not model: the anchor jumps to an old fully signed block, children of
-		// forgotten events are admitted again.  Over Badger only the fresh node resets.)
-		if t%2 == 0 && o.Store != "badger" {
+		// does not model: the anchor may jump to an old fully signed block.  Such a
+		// node is marked "lost" once it adopted a response: the specification stops
+		// following it, the checks on what it delivers and stores go on.)
+		if t%2 == 0 {
 			g := run[0]
 			// In every other of these, the only reachable server is a node that fell
 			// behind: its anchor lies behind g's own last block (a reset backwards).
@@ -849,6 +850,9 @@ func runFF(o *Opts) *Summary {
 				}
 				if vn.tryFF(g, desc, nil, trusted) {
 					adoptedValid++
+					if o.Store == "badger" && !g.lost {
+						g.lost, g.lostWhy = true, "database-leftovers-after-reset"
+					}
 				}
 				offers++
 			}
